@@ -9,7 +9,7 @@ t0 = time.time()
 mods, libs, props = [], [], []
 for f in sorted((C.ROOT / "check" / "props").glob("C*.py")):
     P = C.load_prop(f.stem)
-    if getattr(P, "NOT_APPLICABLE", None): continue
+    if getattr(P, "NOT_APPLICABLE", None) or getattr(P, "WIP", False): continue
     props.append((f.stem, P))
     if hasattr(P, "regenerate"):
         try: P.regenerate(C.ROOT, C.REPO)
